@@ -611,7 +611,14 @@ func (i *c17Inst) Key() string {
 	for _, k := range i.kept {
 		kept += k.from + ";"
 	}
-	return strings.Join(ks, ";") + "|" + strings.Join(have, ",") + "|" + kept + "|recent:" + strings.Join(i.recent, ">")
+	// hidden state of the engine and of the cached template objects (memo tables, counters): reflective fingerprint
+	hid := document.VerifShallowOf(i.eng)
+	for _, n := range have {
+		if t, err := i.eng.GetTemplate(n); err == nil {
+			hid += "/" + n + ":" + document.VerifShallowOf(t)
+		}
+	}
+	return strings.Join(ks, ";") + "|" + strings.Join(have, ",") + "|" + kept + "|recent:" + strings.Join(i.recent, ">") + "|" + rep.Hash(hid)
 }
 
 // ---- part C: schedules on one engine
